@@ -159,7 +159,15 @@ func gen(r *vh.Rand, tier string, n int, emit func(vh.Case)) {
 					c.Ops = append(c.Ops, fmt.Sprintf("putfail %d %d", vh.Pick(r, []int{0, 0, 0, 1, 1, 2, 3}), r.Intn(2)))
 				}
 			}
-			mode := vh.Pick(r, []string{"d", "s", "c"})
+			// blockstore read failures: the k-th Get call from here fails with an error that is not "not found"
+			if r.Chance(1, 16) {
+				if r.Chance(1, 4) {
+					c.Ops = append(c.Ops, "getfail -")
+				} else {
+					c.Ops = append(c.Ops, fmt.Sprintf("getfail %d %d", vh.Pick(r, []int{0, 0, 1, 1, 2, 3, 5}), r.Intn(2)))
+				}
+			}
+			mode := vh.Pick(r, []string{"d", "s", "c", "d", "s", "c", "S0", "S1", "C0", "C1"})
 			switch r.Intn(10) {
 			case 0, 1:
 				c.Ops = append(c.Ops, "add "+genBlk(r, pool))
